@@ -120,17 +120,35 @@ def _replay_histories(bounds):
             targets = [("Entry", dp.Entry(mpe, rpe), None, None)]
             targets += [(name, None, table, tkey) for name, table, tkey in make_cells(dp, mp, rp)]
             for name, entry, table, tkey in targets:
+                # every third table run keeps ONE proxy handle: read before the first
+                # write, updated through, and read again at the end (a handle is an entry too)
+                held = None
+                if entry is None and nrep % 3 == 0:
+                    held = cell_proxy(table, tkey)
+                    pre, _ = observe(held, inf)
+                    if pre != worst and len(bad_cases) < 50:
+                        bad_cases.append((f"never-written cell {name} reads {dict(pre)}",
+                                          {"engine": "E2-history", "structure": name, "mp": mp, "rp": rp,
+                                           "history": [], "observed": tlaval.to_py(pre)}))
                 for lo, hi in parts:
                     if not hist:
                         break
                     if entry is not None:
                         entry.update(*cands[lo:hi])
+                    elif held is not None:
+                        held.update(*cands[lo:hi])
                     elif hi - lo == 1 and (lo + nrep) % 2 == 0:
                         cell_assign(table, tkey, cands[lo])
                     else:
                         cell_proxy(table, tkey).update(*cands[lo:hi])
-                target = entry if entry is not None else cell_proxy(table, tkey)
+                target = entry if entry is not None else (held if held is not None else cell_proxy(table, tkey))
                 got, bad = observe(target, inf)
+                if held is not None:
+                    fresh, _ = observe(cell_proxy(table, tkey), inf)
+                    if fresh != got:
+                        bad.append(f"a held proxy reads ({got['val']},{sorted(got['tags'])}), fresh indexing "
+                                   f"({fresh['val']},{sorted(fresh['tags'])})")
+                    name = name + " (held handle)"
                 nrep += 1
                 if (got not in allowed or bad) and len(bad_cases) < 50:
                     case = {"engine": "E2-history", "structure": name, "mp": mp, "rp": rp,
@@ -403,6 +421,77 @@ def run(ctx):
     if not verdicts2:
         raise tlc.MachineryError("self-test: corrupted trace was accepted by TraceDPEntry")
     ctx.note("self-test: a trace with one corrupted value was rejected by TraceDPEntry")
+    hooked_histories(ctx, rng, thorough)
     for wdir in workdirs:
         import shutil
         shutil.rmtree(wdir, ignore_errors=True)
+
+
+def hooked_histories(ctx, rng, thorough):
+    """E3 with the tracing hook: the update histories the real solvers generate
+    (thousands of entries per run) validated against the same contract."""
+    import json
+    import os
+    import subprocess
+    import sys
+    import tempfile
+    from lib import gen
+    from lib.harness import REPO, GUARD
+    from . import super_common as sc
+    jobs = []
+    for fam in ("dtl", "ord", "un"):
+        for _ in range(6 if thorough else 2):
+            sfam = "un" if fam == "dtl" else fam
+            inp = sc.random_sinput(rng, sfam, 4, 3, 3, costs=sc.SUPER_COSTS[:5], min_obj=3, p_root=0.0)
+            jobs.append((fam, rng.choice(["ALL", "ANY"]), sc.sinput_json(inp)))
+    here = os.path.dirname(os.path.dirname(os.path.abspath(__file__)))
+    sessions = []
+    for job in jobs:
+        fd, path = tempfile.mkstemp(prefix="verif-hook-", suffix=".ndjson")
+        os.close(fd)
+        env = dict(os.environ, TQDM_DISABLE="1")
+        env[GUARD] = "1"
+        env[GUARD + "_TRACE"] = path
+        proc = subprocess.run([sys.executable, "-m", "checks.c16_hooked"], input=json.dumps([job]), text=True,
+                              capture_output=True, env=env, cwd=here, timeout=1200, check=False)
+        if proc.returncode != 0:
+            os.unlink(path)
+            ctx.violation(f"solver run with the tracing hook on fails on {job}: {proc.stderr[-400:]}",
+                          {"engine": "E3-hook", "job": job})
+            continue
+        with open(path, encoding="utf-8") as handle:
+            lines = [json.loads(line) for line in handle if line.strip()]
+        os.unlink(path)
+        if not lines:
+            raise tlc.MachineryError("the tracing hook recorded nothing: is the guard honoured by /repo's working tree?")
+        events = []
+        seen = set()
+        budget = 2500 if thorough else 900
+
+        def num(v):
+            return INF if v == "inf" else (-INF if v == "-inf" else int(v))
+
+        for rec in lines[:budget]:
+            if rec["id"] not in seen:
+                if not rec["first"]:
+                    continue
+                seen.add(rec["id"])
+                events.append({"op": "new", "id": rec["id"], "mp": rec["mp"], "rp": rec["rp"], "cell": False})
+            events.append({"op": "update", "id": rec["id"], "cands": [[num(c[0]), c[1]] for c in rec["cands"]],
+                           "val": num(rec["val"]), "tags": rec["tags"]})
+        sessions.append(events)
+        ctx.nontrivial_extra += 1
+    if not sessions:
+        return
+    chunks, index = trace.split_sessions(sessions, 16)
+    verdicts, stats = trace.validate("TraceDPEntry", chunks, {"StaleTagsBug": "FALSE"})
+    ctx.states += stats["states"]
+    ctx.transitions += stats["transitions"]
+    ctx.traces += len(sessions)
+    ctx.evaluations += stats["events"]
+    ctx.extra["hooked_update_events"] = stats["events"]
+    ctx.sample({"engine": "E3-hook", "job": jobs[0], "events": sessions[0][:4]})
+    for n, clauses in verdicts:
+        event = index[n]
+        ctx.violation(f"Entry.update recorded during a real solver run fails {clauses}: {event}",
+                      {"engine": "E3-hook", "event": event, "clauses": clauses})
